@@ -281,11 +281,16 @@ class ImageWriter:
         return False
 
     def _create_unique_image_name(self, image: LTImage, ext: str) -> Tuple[str, str]:
-        name = image.name + ext
+        # The image name comes from the document. Path separators in it must
+        # not lead out of the output directory.
+        image_name = image.name
+        for c in ("/", "\\", "\0"):
+            image_name = image_name.replace(c, "_")
+        name = image_name + ext
         path = os.path.join(self.outdir, name)
         img_index = 0
         while os.path.exists(path):
-            name = "%s.%d%s" % (image.name, img_index, ext)
+            name = "%s.%d%s" % (image_name, img_index, ext)
             path = os.path.join(self.outdir, name)
             img_index += 1
         return name, path
